@@ -89,17 +89,9 @@ theorem identity_matches_whole_only (l : Lnk) (b : Bytes) (hi : l.mhType = ident
 theorem fill_overlong_never_ok (l : Lnk) (s : Stream) (d : DecRun)
     (hlong : ∀ b, (H l.mhType b).length < l.digest.length) : fill H false l s d ≠ .ok := by
   intro hf
-  unfold fill at hf
-  simp only [Bool.false_eq_true, if_false] at hf
-  by_cases hfd : d.failed = true
-  · simp only [hfd, if_true] at hf
-    cases hfa : s.failAt with
-    | some f => simp [hfa] at hf
-    | none => simp only [hfa] at hf; split at hf <;> simp at hf
-  · have hf' : d.failed = false := by simpa using hfd
-    simp only [hf', Bool.false_eq_true, if_false] at hf
-    rw [overlong_digest_matches_nothing H l _ (hlong _)] at hf
-    simp at hf
+  have h3 := ((Link.fill_ok_iff H l s d).mp hf).2.2
+  rw [overlong_digest_matches_nothing H l _ (hlong _)] at h3
+  cases h3
 
 /-- … `Load` neither … -/
 theorem load_overlong_never_ok (l : Lnk) (s : Stream) (d : DecRun) (reifyOk : Bool)
@@ -120,23 +112,13 @@ theorem loadRaw_overlong_no_bytes (l : Lnk) (s : Stream)
     simp only [overlong_digest_matches_nothing H l _ (hlong _)]
     simp
 
-/-- an identity link whose inline bytes differ from the answer's identity hash: refused by every untrusted `Fill` that
-    read the whole answer -/
+/-- an identity link whose inline bytes differ from the answer's identity hash: refused by every untrusted `Fill`,
+    whatever the decoder read -/
 theorem fill_identity_other_content (l : Lnk) (b : Bytes) (d : DecRun) (hi : l.mhType = identityCode)
-    (hne : H l.mhType b ≠ l.digest) (hp : d.pulled ≥ b.length) : fill H false l ⟨b, none⟩ d ≠ .ok := by
+    (hne : H l.mhType b ≠ l.digest) : fill H false l ⟨b, none⟩ d ≠ .ok := by
   intro hf
-  have hno : hashesTo H l b = false := by
-    cases hh : hashesTo H l b with
-    | false => rfl
-    | true => exact absurd (identity_matches_whole_only H l b hi hh) hne
-  unfold fill at hf
-  simp only [Bool.false_eq_true, if_false, Stream.deliverable] at hf
-  by_cases hfd : d.failed = true
-  · simp only [hfd, if_true, hno] at hf
-    simp at hf
-  · have hf' : d.failed = false := by simpa using hfd
-    simp only [hf', Bool.false_eq_true, if_false, List.take_of_length_le hp, hno] at hf
-    simp at hf
+  have h3 := ((Link.fill_ok_iff H l ⟨b, none⟩ d).mp hf).2.2
+  exact hne (identity_matches_whole_only H l b hi h3)
 
 /-! Non-vacuity: a concrete hash function (identity for code 0, a 2-byte "hash" otherwise), a link that claims 3 bytes
     of it, an identity link carrying a proper prefix of the answer. -/
